@@ -7,6 +7,14 @@ SEEDED = "/verif/seeded"
 
 # seeded change -> what happened the first time and what was strengthened
 HISTORY = {
+    "C05-27": "missed at first (set_code was only called on a fresh header): it now runs from every previous code byte (256 x 256 pairs)",
+    "C05-28": "missed at first (C05 ran in the default feature set only): C05 now also runs the `std,udp` configuration, whose 256 x 256 (first byte, code byte) sweep catches it",
+    "C05-29": "missed by C05 at first (the setter was only used on an empty message): every named content format is now also set on messages that already hold one to three other Content-Format values",
+    "C06-27": "missed at first (at most two forced leading zeros in the random decode inputs): the number of leading zeros now ranges over the whole length in two fifths of the cases",
+    "C06-28": "missed at first (damaged long texts always contained non-ASCII characters throughout): plain ASCII texts of 8..200 bytes with a single byte >= 0x80, often in the last eight bytes, were added",
+    "C10-32": "missed at first (C10 ran no second key): between two blocks of a download another download now starts on the path with its segments joined, with more response options",
+    "C12-32": "missed at first (transfers of one set never had equal body lengths with different block sizes): a fifth of the sets now hold two downloads of 200 bytes with the same token length and first-request sizes two exponents apart",
+    "C19-31": "missed at first (raw previous values were unrelated to the value being set): the zero-padded encoding of the very value being set was added as a previous raw value",
     "C04-25": "missed by C04 at first (its messages never had cleared option numbers): a quarter of the messages now carry option numbers that were added and cleared again",
     "C05-24": "missed at first (set_type was only tried from three fixed previous states with the default code): it now runs from every previous type x code {0.00, 0.01, 2.05, 0xFF} x token length {0, 3, 8}",
     "C05-25": "missed at first (the content-format id was only read through the conversion and from a bare message): every 16-bit id is now also read through Packet::get_content_format in six message contexts (codes 0.00 / 0.01 / 2.05 / 4.04 / 0.02, with and without Observe, path and payload)",
